@@ -32,21 +32,36 @@ type RunConfig struct {
 	UsePool     bool // take solvers from the global pool (one per path) instead of one per worker
 }
 
-var pool chan *smt.Solver
+var pools = map[string]chan *smt.Solver{}
 var poolAll []*smt.Solver
+var poolMu sync.Mutex
+var poolN, poolTimeout = 16, 30000
 
-// InitPool starts n solver processes shared by all concurrently running harness instances.
+// InitPool sets the size of the per-solver pools shared by all concurrently
+// running harness instances; the processes are started on first use.
 func InitPool(n int, bin string, timeoutMs int) error {
-	pool = make(chan *smt.Solver, n)
-	for i := 0; i < n; i++ {
-		s, err := smt.Start(bin, timeoutMs)
+	poolN, poolTimeout = n, timeoutMs
+	_, err := getPool(bin)
+	return err
+}
+
+func getPool(bin string) (chan *smt.Solver, error) {
+	poolMu.Lock()
+	defer poolMu.Unlock()
+	if p, ok := pools[bin]; ok {
+		return p, nil
+	}
+	p := make(chan *smt.Solver, poolN)
+	for i := 0; i < poolN; i++ {
+		s, err := smt.Start(bin, poolTimeout)
 		if err != nil {
-			return err
+			return nil, err
 		}
 		poolAll = append(poolAll, s)
-		pool <- s
+		p <- s
 	}
-	return nil
+	pools[bin] = p
+	return p, nil
 }
 
 func ClosePool() {
@@ -54,6 +69,7 @@ func ClosePool() {
 		s.Close()
 	}
 	poolAll = nil
+	pools = map[string]chan *smt.Solver{}
 }
 
 // PoolStats returns total queries and solver time of the pool.
@@ -236,7 +252,23 @@ func (pr *Program) Run(cfg RunConfig) *RunResult {
 			ps := s
 			var q0 int
 			var t0s time.Duration
+			var pool chan *smt.Solver
 			if cfg.UsePool {
+				bin := cfg.SolverBin
+				if bin == "" {
+					bin = "z3"
+				}
+				var err error
+				pool, err = getPool(bin)
+				if err != nil {
+					mu.Lock()
+					res.Aborts = append(res.Aborts, Event{Kind: EvAbort, Label: "solver", Detail: err.Error()})
+					stop = true
+					active--
+					cond.Broadcast()
+					mu.Unlock()
+					return
+				}
 				ps = <-pool
 				q0, t0s = ps.Queries, ps.Time
 			}
